@@ -180,7 +180,121 @@ def check_tokens(ctx, tokens, wrap="bare", via_lint=False):
                 tree.rmtree(d)
 
 
+# ---- big files: the whole file is scanned when it holds a snippet marker; blocks may span many KiB
+@st.composite
+def bigfile_case(draw):
+    segs = []
+    k = 0
+    for _ in range(draw(st.integers(1, 4))):
+        segs.append(("fill", draw(st.integers(0, 120))))
+        kind = draw(st.sampled_from(["block", "block", "open", "visible", "stray-end"]))
+        if kind in ("block", "open"):
+            inner = []
+            for _ in range(draw(st.integers(1, 3))):
+                inner.append(("fill", draw(st.integers(0, 120))))
+                k += 1
+                inner.append(("tag", k, draw(st.sampled_from(["lic", "cop"]))))
+            inner.append(("fill", draw(st.integers(0, 60))))
+            segs.append((kind, inner))
+            if kind == "open":
+                break
+        elif kind == "visible":
+            k += 1
+            segs.append(("tag", k, draw(st.sampled_from(["lic", "cop"]))))
+        else:
+            segs.append(("end",))
+    k += 1
+    if not segs or segs[-1][0] != "open":
+        segs.append(("fill", draw(st.integers(0, 40))))
+        segs.append(("tag", k, "lic"))
+    return {"segs": segs, "snippet": draw(st.sampled_from(["top", "top", "bottom", "none"])), "eol": draw(st.sampled_from(["\n", "\n", "\r\n"]))}
+
+
+def check_bigfile(ctx, c):
+    lines = []
+    vis_lic, vis_cop = set(), set()
+    hidden = 0
+
+    def tagline(k, kind, visible):
+        nonlocal hidden
+        if kind == "lic":
+            v = LIDS[k % len(LIDS)] if visible else f"LicenseRef-hidden{k}"
+            if visible:
+                vis_lic.add(v)
+            else:
+                hidden += 1
+            return f"# SPDX-License-Identifier: {v}"
+        v = f"SPDX-FileCopyrightText: 20{k % 100:02d} {'Visible' if visible else 'Hidden'}{k}"
+        if visible:
+            vis_cop.add(v)
+        else:
+            hidden += 1
+        return "# " + v
+
+    if c["snippet"] == "top":
+        lines.append("# SPDX-SnippetBegin")
+    for seg in c["segs"]:
+        if seg[0] == "fill":
+            lines += ["x" * 62] * seg[1]
+        elif seg[0] == "tag":
+            lines.append(tagline(seg[1], seg[2], True))
+        elif seg[0] == "end":
+            lines.append("# " + END + " (stray)")
+        else:
+            lines.append("# " + START)
+            for s2 in seg[1]:
+                if s2[0] == "fill":
+                    lines += ["y" * 62] * s2[1]
+                else:
+                    lines.append(tagline(s2[1], s2[2], False))
+            if seg[0] == "block":
+                lines.append("# " + END)
+    if c["snippet"] == "bottom":
+        lines.append("# SPDX-SnippetBegin")
+    text = c["eol"].join(lines) + c["eol"]
+    data = text.encode()
+    whole = c["snippet"] != "none"
+    case = dict(c, size=len(data))
+    # expected: what an independent scan of the scanned part yields
+    scanned = data if whole else data[:4096]
+    ref = ref_filter(scanned.decode("utf-8", "replace").replace("\r\n", "\n"))
+    exp_lic = {v for v in vis_lic if f"SPDX-License-Identifier: {v}\n" in ref or ref.endswith(f"SPDX-License-Identifier: {v}")}
+    exp_cop = {v for v in vis_cop if v + "\n" in ref or ref.endswith(v)}
+    if "hidden" in ref.lower():
+        from vlib import HarnessError
+
+        raise HarnessError("reference scan kept a hidden tag")
+    d = ctx.fresh_dir()
+    try:
+        tree.write_tree(d, {"big.py": data})
+        res, rep = tree.lint_json(d)
+        if rep is None:
+            ctx.fail(case, f"lint --json failed: {res.brief()}")
+        ent = tree.file_entry(rep, "big.py")
+        if ent is None:
+            if not res.out or "big.py" in str(rep["non_compliant"]["read_errors"]):
+                ctx.fail(case, f"big.py became a read error: {res.err[-300:]}")
+            ctx.fail(case, "lint --json does not list big.py")
+        gc, ge = tree.entry_sets(ent)
+        ctx.count(data, nontrivial=hidden > 0 and len(data) > 4096, labels=["bigfile", f"bigfile:snippet={c['snippet']}", f"bigfile:kb={min(len(data) // 4096, 8)}"],
+                  sample={"size": len(data), "snippet": c["snippet"], "segments": [s3[0] for s3 in c["segs"]]})
+        if gc != exp_cop or ge != exp_lic:
+            leaked = {x for x in gc | ge if "idden" in x}
+            ctx.fail(case, f"{len(data)}-byte file (snippet marker: {c['snippet']}): lint reads copyrights={sorted(gc)} licences={sorted(ge)}, expected {sorted(exp_cop)} / {sorted(exp_lic)}"
+                     + (f"; information from inside an ignore block leaked: {sorted(leaked)}" if leaked else ""))
+    finally:
+        tree.rmtree(d)
+
+
 def replay(ctx, case):
+    if "segs" in case:
+        def tup(x):
+            return tuple(tup(y) if isinstance(y, list) else y for y in x)
+
+        case = dict(case, segs=[tup(s) for s in case["segs"]])
+        case.pop("size", None)
+        check_bigfile(ctx, case)
+        return
     check_tokens(ctx, list(case["tokens"]), case.get("wrap", "bare"), case.get("via_lint", False))
 
 
@@ -211,3 +325,4 @@ def run(ctx):
     n_lint = 40 if ctx.tier == "quick" else 600
     strat2 = st.tuples(st.lists(heavy, min_size=1, max_size=14), st.sampled_from(wraps))
     hyp_run(ctx, "lint", strat2, lambda c: check_tokens(ctx, c[0], c[1], via_lint=True), n_lint)
+    hyp_run(ctx, "bigfile", bigfile_case(), lambda c: check_bigfile(ctx, c), 40 if ctx.tier == "quick" else 800)
